@@ -421,6 +421,16 @@ func getTcbInfo(fmspc string, getter trust.HTTPSGetter, collateral *Collateral) 
 			Msg: err.Error(),
 		}
 	}
+	// The values used for verification must be the ones covered by the signature: decode
+	// them from the signed member itself, not from the response as a whole (where a
+	// differently spelled duplicate member would shadow the signed one).
+	var tcbInfo pcs.TcbInfo
+	if err := json.Unmarshal(tcbInfoRawBody, &tcbInfo); err != nil {
+		return &trust.AttestationRecreationErr{
+			Msg: fmt.Sprintf("unable to unmarshal tcbInfo: %v", err),
+		}
+	}
+	collateral.TdxTcbInfo.TcbInfo = tcbInfo
 	collateral.TcbInfoBody = tcbInfoRawBody
 	return nil
 }
@@ -456,6 +466,14 @@ func getQeIdentity(getter trust.HTTPSGetter, collateral *Collateral) error {
 			Msg: err.Error(),
 		}
 	}
+	// As for tcbInfo: use the values of the signed member.
+	var enclaveIdentity pcs.EnclaveIdentity
+	if err := json.Unmarshal(qeIdentityRawBody, &enclaveIdentity); err != nil {
+		return &trust.AttestationRecreationErr{
+			Msg: fmt.Sprintf("unable to unmarshal enclaveIdentity: %v", err),
+		}
+	}
+	collateral.QeIdentity.EnclaveIdentity = enclaveIdentity
 	collateral.EnclaveIdentityBody = qeIdentityRawBody
 	return nil
 }
